@@ -370,12 +370,16 @@ def conv_unit(s, d, tier):
 QUICK = [('u8', 'u16'), ('u16', 'u8'), ('u8', 'f32'), ('f32', 'u8'), ('u16', 'f32'), ('f32', 'u16'), ('u8', 'u32'), ('u32', 'u8'),
          ('u16', 'u32'), ('u32', 'u16'), ('p5', 'u8'), ('u8', 'p5'), ('p6', 'u8'), ('u8', 'p6'), ('u16', 'p5'), ('p5', 'u16'),
          ('i8', 'u8'), ('u8', 'i8'), ('i16', 'u8'), ('i8', 'i16'), ('i16', 'i8'), ('u32', 'f32'), ('f32', 'u32'),
-         ('i32', 'u8'), ('u8', 'i32'), ('f32', 'i8'), ('i16', 'f32'), ('u8', 'u8'), ('f32', 'f32'), ('p5', 'p6'), ('p3', 'p7'), ('p7', 'u32')]
+         ('i32', 'u8'), ('u8', 'i32'), ('f32', 'i8'), ('i16', 'f32'), ('u8', 'u8'), ('f32', 'f32'), ('p5', 'p6'), ('p3', 'p7'), ('p7', 'u32'),
+         # full-width packed channels (integer_t exactly N bits wide: intermediate sums can wrap in the carrier type)
+         ('p8', 'p5'), ('p16', 'p15'), ('p16', 'p7'), ('p8', 'u16'), ('p5', 'p8'), ('u8', 'p8'), ('p16', 'u8')]
 BASE9 = ['u8', 'u16', 'u32', 'i8', 'i16', 'i32', 'f32', 'p5', 'p11']
 THOROUGH = [(a, b) for a in BASE9 for b in BASE9] + \
     [('p%d' % n, 'u8') for n in range(1, 8)] + [('u8', 'p%d' % n) for n in range(1, 8)] + \
     [('p%d' % n, 'u16') for n in (1, 4, 9, 12, 15)] + [('u16', 'p%d' % n) for n in (1, 4, 9, 12, 15)] + \
-    [('p%d' % a, 'p%d' % b) for a in (1, 2, 4, 5) for b in (3, 6, 8, 10, 16)] + [('p20', 'p24'), ('p24', 'p20'), ('p7', 'u32'), ('u32', 'p7')]
+    [('p%d' % a, 'p%d' % b) for a in (1, 2, 4, 5) for b in (3, 6, 8, 10, 16)] + [('p20', 'p24'), ('p24', 'p20'), ('p7', 'u32'), ('u32', 'p7')] + \
+    [('p8', 'p%d' % n) for n in (1, 2, 3, 4, 6, 7)] + [('p16', 'p%d' % n) for n in (3, 5, 8, 9, 11, 12, 13, 14)] + \
+    [('p32', 'p%d' % n) for n in (5, 16, 31)] + [('p%d' % n, 'p32') for n in (5, 16, 31)] + [('p32', 'u8'), ('p32', 'u16'), ('u16', 'p32')]
 
 UNITS = []
 _seen = set()
